@@ -54,10 +54,12 @@ class World:
             setattr(hosts[i % len(hosts)], f"p{i}", p)
             self.params.append(p)
         self.module = m
+        self.params[1].requires_grad = False            # frozen while the optimizers are constructed (fine-tuning schedules do this) ...
         self.opt = ns.optim.SGD([p for p, l in zip(self.params, LEAVES) if l["req"]], lr=0.1)
         # optimizers with a zero learning rate: a step is neither a backward call nor a reset, so .grad must survive it
         self.opt0 = [ns.optim.SGD([p for p, l in zip(self.params, LEAVES) if l["req"]], lr=0.0, momentum=0.9, nesterov=True),
                      ns.optim.Adam([p for p, l in zip(self.params, LEAVES) if l["req"]], lr=0.0)]
+        self.params[1].requires_grad = True             # ... and unfrozen before the first graph is built
         self.tvals = {i: p for i, p in enumerate(self.params)}      # value id -> library Tensor
         self.ledger = [None] * len(LEAVES)
         self.n_exec = 0                                              # number of instructions already executed in the library
